@@ -125,15 +125,18 @@ LabelledRxns(b, mode) ==
 (***************************************************************************)
 ReqBits(n, rq) == [i \in 1..n |-> IF rq.k # "none" /\ (i - 1) \in Range(rq.ps) THEN 1 ELSE 0]
 LInit(b, req) ==
-    [n \in IsoNames(b) |->
-        LET rec == CHOOSE x \in IsoIndex(b) : x.n = n
-        IN IF rec.bits = ReqBits(b.nl[rec.c], req[rec.c]) THEN b.init[rec.c] ELSE 0]
+    LET idx == IsoIndex(b)
+    IN [n \in {rec.n : rec \in idx} |->
+          LET rec == CHOOSE x \in idx : x.n = n
+          IN IF rec.bits = ReqBits(b.nl[rec.c], req[rec.c]) THEN b.init[rec.c] ELSE 0]
 
 (***************************************************************************)
 (* Values.  y : [IsoNames(b) -> Int] is a state of the labelled model.     *)
 (***************************************************************************)
-TotalOf(b, y, c) == FoldSet(LAMBDA rec, acc : acc + (IF rec.c = c THEN y[rec.n] ELSE 0), 0, IsoIndex(b))
-Totals(b, y) == [c \in CpdSet(b) |-> TotalOf(b, y, c)]
+\* (idx = IsoIndex(b) is passed around: TLC does not memoise operator applications)
+TotalOfI(idx, y, c) == FoldSet(LAMBDA rec, acc : acc + (IF rec.c = c THEN y[rec.n] ELSE 0), 0, idx)
+TotalOf(b, y, c) == TotalOfI(IsoIndex(b), y, c)
+Totals(b, y) == LET idx == IsoIndex(b) IN [c \in CpdSet(b) |-> TotalOfI(idx, y, c)]
 
 \* base model at a base state t : [CpdSet -> Int]
 DerValue(b, t, d) ==
@@ -170,11 +173,13 @@ CountRule(b, mode) ==
     \A j \in Mapped(b) : Cardinality({ir.name : ir \in IsoRxns(b, b.rxns[j], mode)}) = Pow2(SLab(b, b.rxns[j]))
 
 \* one isotopomer per unit of base stoichiometry: collapsing isotopomer names gives the base stoichiometry
-Collapse(b, st, c) == FoldSet(LAMBDA rec, acc : acc + (IF rec.c = c /\ rec.n \in DOMAIN st THEN st[rec.n] ELSE 0), 0, IsoIndex(b))
+Collapse(idx, st, c) == FoldSet(LAMBDA rec, acc : acc + (IF rec.c = c /\ rec.n \in DOMAIN st THEN st[rec.n] ELSE 0), 0, idx)
 UnitRule(b, mode) ==
-    \A j \in Mapped(b) : \A ir \in IsoRxns(b, b.rxns[j], mode) :
-        /\ DOMAIN ir.st \subseteq IsoNames(b)
-        /\ \A c \in CpdSet(b) : Collapse(b, ir.st, c) = Count(b.rxns[j].prods, c) - Count(b.rxns[j].subs, c)
+    LET idx == IsoIndex(b)
+        names == {rec.n : rec \in idx}
+    IN \A j \in Mapped(b) : \A ir \in IsoRxns(b, b.rxns[j], mode) :
+        /\ DOMAIN ir.st \subseteq names
+        /\ \A c \in CpdSet(b) : Collapse(idx, ir.st, c) = Count(b.rxns[j].prods, c) - Count(b.rxns[j].subs, c)
 
 \* atom conservation: every labelled source atom (substrate or external) appears in exactly as many
 \* product positions as the map names it; for a one-to-one map labelled atoms out = labelled atoms in
@@ -188,8 +193,9 @@ AtomRule(b) ==
 SumRule(b, y, mode) ==
     LET d == LRhs(b, y, mode)
         base == BRhs(b, Totals(b, y))
-    IN \A c \in CpdSet(b) : TotalOf(b, d, c) = base[c]
+        idx == IsoIndex(b)
+    IN \A c \in CpdSet(b) : TotalOfI(idx, d, c) = base[c]
 
 \* placement keeps the amount of every compound
-InitRule(b, req) == \A c \in CpdSet(b) : TotalOf(b, LInit(b, req), c) = b.init[c]
+InitRule(b, req) == LET idx == IsoIndex(b) li == LInit(b, req) IN \A c \in CpdSet(b) : TotalOfI(idx, li, c) = b.init[c]
 =============================================================================
